@@ -433,6 +433,15 @@ def run_gk(case, seed):
     except (AttributeError, NameError, TypeError) as e:
         return _gauge_fail_exc(case, e)
     seen = [d for d, _ in fake.calls]
+    if not seen and want and not overflow:
+        # the scripted source was never consulted (another random source, or the option is a no-op): the unitaries
+        # cannot be enumerated; only the comparison below remains (not a violation of the property by itself)
+        bad = kres.diff_report(ref, got, RTOL, units)
+        if bad:
+            return {"ok": False, "key": "gauge:" + _site(bad[0][0]), "nontrivial": False,
+                    "detail": f"system={case['sys']} evaluate_k k={k.tolist()}: random_gauge=True vs False (unitaries not "
+                              f"scripted): {_fmt(bad)}"}
+        return {"ok": True, "nontrivial": False, "obs": "unitary seam not reached"}
     if seen != want or overflow:
         return {"ok": False, "key": "random_gauge:degenerate_groups", "nontrivial": False,
                 "detail": f"system={case['sys']} k={k.tolist()} E={E.tolist()}: unitary_group.rvs called for multiplets "
@@ -474,6 +483,13 @@ def run_grun(case, seed):
     except (AttributeError, NameError, TypeError) as e:
         return _gauge_fail_exc(case, e)
     seen = [d for d, _ in fake.calls]
+    if not seen and want and not overflow:
+        bad = kres.diff_report(ref, got, RTOL, units)
+        if bad:
+            return {"ok": False, "key": "gauge:" + _site(bad[0][0]), "nontrivial": False,
+                    "detail": f"system={case['sys']} run() grid NKFFT={list(nk)}: random_gauge=True vs False (unitaries "
+                              f"not scripted): {_fmt(bad)}"}
+        return {"ok": True, "nontrivial": False, "obs": "unitary seam not reached"}
     if seen != want or overflow:
         return {"ok": False, "key": "random_gauge:degenerate_groups", "nontrivial": False,
                 "detail": f"system={case['sys']} grid {nk}: unitary_group.rvs called for multiplets {seen}, "
